@@ -354,6 +354,175 @@ def check_internal_rebuild(ctx: Check, tree: Tree) -> None:
         raise AnalysisError(f"only {n} self.func(...) reconstructions found in the decorator hooks (4 confirmed)")
 
 
+def check_change_propagation(ctx: Check, tree: Tree) -> None:
+    """R-PROPAGATE: the substitution hooks return a rebuilt instance exactly when a replacement
+    happened somewhere below, built from the per-argument results:
+      _xreplace:  (rule[self], True) iff `self in rule`; for every argument the pair (result,
+                  replaced?) of `arg._xreplace(rule)` or (rule.get(arg, arg), arg in rule) or (arg,
+                  False); result appended for EVERY argument; hit accumulates the flags from False;
+                  (self.func(*results), True) iff hit, else (self, False).
+      _eval_subs: new = old_arg._subs(old, new, **hints) with the hook's own (old, new) in that order;
+                  `if not same(new_attr, old_arg)`: hit = True AND the slot of that argument is
+                  replaced; self.func(*new_args) iff hit, else self."""
+    from ..dataflow import RD
+
+    mod = "ampform.sympy._decorator"
+    # ------------------------------------------------------------------ _xreplace
+    fn = tree.funcs.get(f"{mod}::_xreplace_method")
+    if fn is None:
+        raise AnalysisError("vanished anchor: _xreplace_method")
+    rd = RD(fn.node)
+    self_, rule = fn.params[0], fn.params[1]
+    problems: list[str] = []
+    rets = [r for r in walk_function(fn.node, nested=False) if isinstance(r, ast.Return)]
+    hit_names = set()
+    for r in rets:
+        v = r.value
+        if not (isinstance(v, ast.Tuple) and len(v.elts) == 2 and isinstance(v.elts[1], ast.Constant) and isinstance(v.elts[1].value, bool)):
+            problems.append(f"`{unparse(r)}` is not (expression, literal flag)")
+            continue
+        obj, flag = v.elts[0], v.elts[1].value
+        guards = [a for a in _ancestors(r) if isinstance(a, ast.If)]
+        if isinstance(obj, ast.Name) and obj.id == self_:
+            if flag is not False:
+                problems.append("`return self, True` - nothing was replaced")
+        elif unparse(obj) == f"{rule}[{self_}]":
+            if flag is not True or not any(unparse(g.test).replace(" ", "") == f"{self_}in{rule}" for g in guards):
+                problems.append(f"`{unparse(r)}` is not guarded by `{self_} in {rule}` / flag is not True")
+        elif isinstance(obj, ast.Call) and unparse(obj.func) == f"{self_}.func":
+            g_hit = [g for g in guards if isinstance(g.test, ast.Name) and g.test.id not in {rule}]
+            if flag is not True or not g_hit:
+                problems.append(f"`{unparse(r)}`: the rebuilt instance is not returned under `if <hit>` with flag True")
+            hit_names |= {g.test.id for g in g_hit}
+        else:
+            problems.append(f"unexpected return `{unparse(r)}`")
+    if len(hit_names) != 1:
+        problems.append(f"hit flag not identified ({sorted(hit_names)})")
+    else:
+        hit = next(iter(hit_names))
+        hdefs = [d for d in rd.defs if d.name == hit]
+        inits = [d for d in hdefs if d.kind == "assign"]
+        accs = [d for d in hdefs if d.kind == "aug"]
+        if not (len(inits) == 1 and isinstance(inits[0].value, ast.Constant) and inits[0].value.value is False):
+            problems.append(f"`{hit}` does not start as False")
+        if not accs:
+            problems.append(f"`{hit}` never accumulates the per-argument flags")
+        for d in accs:
+            node = d.node
+            if not (isinstance(node, ast.AugAssign) and isinstance(node.op, ast.BitOr) and isinstance(node.value, ast.Name)):
+                problems.append(f"`{unparse(node)}` is not `{hit} |= <flag of this argument>`")
+                continue
+            if any(isinstance(a, ast.If) for a in _ancestors(node) if a is not fn.node and not isinstance(a, (ast.For, ast.FunctionDef)) and unparse(getattr(a, "test", ast.Constant(1))) != rule):
+                problems.append(f"`{unparse(node)}` is conditional")
+            for fd in rd.reaching(node.value):
+                ok_flag = (
+                    (fd.index == 1 and isinstance(fd.value, ast.Call) and unparse(fd.value.func).endswith("._xreplace") and [unparse(a) for a in fd.value.args] == [rule])
+                    or (isinstance(fd.value, ast.Constant) and fd.value.value is False)
+                    or unparse(fd.value).replace(" ", "") in {f"bool(arginrule)".replace("arg", unparse(fd.value.args[0].left) if isinstance(fd.value, ast.Call) and fd.value.args and isinstance(fd.value.args[0], ast.Compare) else "arg").replace("rule", rule)}
+                    or (isinstance(fd.value, ast.Compare) and len(fd.value.ops) == 1 and isinstance(fd.value.ops[0], ast.In) and unparse(fd.value.comparators[0]) == rule)
+                )
+                if isinstance(fd.value, ast.Call) and unparse(fd.value.func) == "bool" and fd.value.args and isinstance(fd.value.args[0], ast.Compare):
+                    c = fd.value.args[0]
+                    ok_flag = len(c.ops) == 1 and isinstance(c.ops[0], ast.In) and unparse(c.comparators[0]) == rule
+                if not ok_flag:
+                    problems.append(f"flag `{unparse(fd.node)[:60]}` is not (second component of arg._xreplace({rule}) | arg in {rule} | False)")
+        # results appended once per argument
+        appends = [n for n in walk_function(fn.node) if isinstance(n, ast.Call) and isinstance(n.func, ast.Attribute) and n.func.attr == "append"]
+        ok_app = False
+        for a in appends:
+            par_loops = [x for x in _ancestors(a) if isinstance(x, ast.For)]
+            in_if = [x for x in _ancestors(a) if isinstance(x, ast.If) and par_loops and any(x is y for y in ast.walk(par_loops[0]))]
+            if par_loops and not in_if and len(a.args) == 1 and isinstance(a.args[0], ast.Name):
+                srcs = []
+                for d in rd.reaching(a.args[0]):
+                    srcs.append(unparse(d.value) if d.value is not None else d.kind)
+                    if not ((d.index == 0 and isinstance(d.value, ast.Call) and unparse(d.value.func).endswith("._xreplace"))
+                            or (isinstance(d.value, ast.Call) and unparse(d.value.func) == f"{rule}.get" and len(d.value.args) == 2 and unparse(d.value.args[0]) == unparse(d.value.args[1]))
+                            or (isinstance(d.value, ast.Name) and d.value.id == unparse(par_loops[0].target))):
+                        problems.append(f"result `{unparse(d.node)[:60]}` is not (first component of arg._xreplace | {rule}.get(arg, arg) | arg)")
+                ok_app = True
+        if not ok_app:
+            problems.append("the per-argument result is not appended unconditionally for every argument")
+    # which arguments are descended into: exactly those that have the method and are not classes
+    for c in [c for c in walk_function(fn.node) if isinstance(c, ast.Call) and isinstance(c.func, ast.Attribute) and c.func.attr == "_xreplace"]:
+        conds = [a for a in _ancestors(c) if isinstance(a, ast.If)]
+        subject = unparse(c.func.value)
+        def selects(test: ast.AST) -> bool:
+            ops = test.values if isinstance(test, ast.BoolOp) and isinstance(test.op, ast.And) else [test]
+            has = any(isinstance(o, ast.Call) and unparse(o.func) == "hasattr" and len(o.args) == 2 and unparse(o.args[0]) == subject
+                      and isinstance(o.args[1], ast.Constant) and o.args[1].value == "_xreplace" for o in ops)
+            rest = [o for o in ops if not (isinstance(o, ast.Call) and unparse(o.func) == "hasattr")]
+            rest_ok = all(isinstance(o, ast.UnaryOp) and isinstance(o.op, ast.Not) and isinstance(o.operand, ast.Call) and unparse(o.operand.func) == "isclass"
+                          and [unparse(a) for a in o.operand.args] == [subject] for o in rest)
+            return has and rest_ok
+
+        if not any(selects(g.test) and any(c is n for b in g.body for n in ast.walk(b)) for g in conds):
+            problems.append(f"`{unparse(c)}` is not selected by `hasattr({subject}, '_xreplace') and not isclass({subject})`")
+    ctx.verdict(not problems, "R-PROPAGATE", f"{fn.qual}::change-propagation", tree.loc(fn.node),
+                "_xreplace hook: (rule[self], True) iff self in rule; every argument's result collected; rebuilt instance iff some argument reported a replacement", problems or None)
+
+    # ------------------------------------------------------------------ _eval_subs
+    fn = tree.funcs.get(f"{mod}::_eval_subs_method")
+    if fn is None:
+        raise AnalysisError("vanished anchor: _eval_subs_method")
+    rd = RD(fn.node)
+    self_, old, new = fn.params[0], fn.params[1], fn.params[2]
+    problems = []
+    subs_calls = [c for c in walk_function(fn.node) if isinstance(c, ast.Call) and isinstance(c.func, ast.Attribute) and c.func.attr == "_subs"]
+    if len(subs_calls) != 1:
+        raise AnalysisError(f"{fn.qual}: expected one recursive `_subs` call")
+    sc = subs_calls[0]
+    if [unparse(a) for a in sc.args[:2]] != [old, new]:
+        problems.append(f"recursive call `{unparse(sc)}` does not pass ({old}, {new}) in this order")
+    res_def = next((d for d in rd.defs if d.value is sc), None)
+    changed_ifs = []
+    for node in walk_function(fn.node):
+        if isinstance(node, ast.If) and res_def is not None and any(isinstance(n, ast.Name) and res_def in rd.reaching(n) for n in ast.walk(node.test)):
+            changed_ifs.append(node)
+    if len(changed_ifs) != 1:
+        problems.append("no single `if <result differs from the argument>` block")
+    else:
+        g = changed_ifs[0]
+        t = g.test
+        negated_same = isinstance(t, ast.UnaryOp) and isinstance(t.op, ast.Not) and isinstance(t.operand, ast.Call) and unparse(t.operand.func).endswith("_aresame")
+        differs = isinstance(t, ast.Compare) and len(t.ops) == 1 and isinstance(t.ops[0], ast.NotEq)
+        if not (negated_same or differs):
+            problems.append(f"`if {unparse(t)}` does not test that the result differs from the argument")
+        sets_hit = [s_ for s_ in g.body if isinstance(s_, ast.Assign) and isinstance(s_.value, ast.Constant) and s_.value.value is True]
+        stores = [s_ for s_ in g.body if isinstance(s_, ast.Assign) and isinstance(s_.targets[0], ast.Subscript) and isinstance(s_.value, ast.Name) and res_def in rd.reaching(s_.value)]
+        if not sets_hit:
+            problems.append("the change block does not set the hit flag")
+        if not stores:
+            problems.append("the change block does not store the new value in the slot of that argument")
+        else:
+            slot = stores[0].targets[0]
+            loops = [a for a in _ancestors(g) if isinstance(a, ast.For)]
+            idx_ok = loops and isinstance(loops[0].iter, ast.Call) and unparse(loops[0].iter.func) == "enumerate" and isinstance(loops[0].target, ast.Tuple) and unparse(slot.slice) == unparse(loops[0].target.elts[0])
+            if not idx_ok:
+                problems.append(f"`{unparse(stores[0])}` does not address the slot of the argument that is being visited")
+        if sets_hit:
+            hit = unparse(sets_hit[0].targets[0])
+            inits = [d for d in rd.defs if d.name == hit and isinstance(d.value, ast.Constant) and d.value.value is False]
+            if not inits:
+                problems.append(f"`{hit}` does not start as False")
+            rebuilt = [c for c in walk_function(fn.node) if isinstance(c, ast.Call) and unparse(c.func) == f"{self_}.func" and any(isinstance(a, ast.Starred) for a in c.args)]
+            under_hit = [c for c in rebuilt if any(isinstance(a, ast.If) and unparse(a.test) == hit for a in _ancestors(c))]
+            if not under_hit:
+                problems.append(f"the instance is not rebuilt under `if {hit}`")
+            finals = [r for r in walk_function(fn.node, nested=False) if isinstance(r, ast.Return) and isinstance(r.value, ast.Name) and r.value.id == self_]
+            if not finals or any(isinstance(a, ast.If) and unparse(a.test) == hit for r in finals for a in _ancestors(r)):
+                problems.append("`return self` is not the result when nothing changed")
+    # arguments may only be skipped when they cannot be substituted into: no _eval_subs / a class
+    subject = unparse(sc.func.value)
+    for node in walk_function(fn.node):
+        if isinstance(node, ast.If) and any(isinstance(b, ast.Continue) for b in node.body):
+            t = unparse(node.test).replace(" ", "").replace('"', "'")
+            if t not in {f"nothasattr({subject},'_eval_subs')", f"nothasattr({subject},'_subs')", f"isclass({subject})"}:
+                problems.append(f"`if {unparse(node.test)}: continue` skips arguments that can be substituted into")
+    ctx.verdict(not problems, "R-PROPAGATE", f"{fn.qual}::change-propagation", tree.loc(fn.node),
+                "_eval_subs hook: arg._subs(old, new) per argument; a differing result sets the hit flag and replaces that argument's slot; rebuilt instance iff hit, else self", problems or None)
+
+
 def count_nested_constructions(tree: Tree) -> list[str]:
     classes = set(expression_classes(tree)) | set(handwritten_expr_classes(tree))
     out = []
@@ -495,6 +664,7 @@ def run(ctx: Check, tree: Tree) -> None:
     ctx.section(check_descent, ctx, tree)
     ctx.section(check_arg_order, ctx, tree)
     ctx.section(check_internal_rebuild, ctx, tree)
+    ctx.section(check_change_propagation, ctx, tree)
     from .c15 import check_reentrant_new
 
     ctx.section(check_reentrant_new, ctx, tree)  # "reproduced by rebuilding it from its own arguments" for the array helper classes
